@@ -106,6 +106,18 @@ fn schedule_pending(
             ring.post_immediate_error(entry.user_data, libc_einval(), now);
             continue;
         }
+        // `offset == -1` asks the kernel to use (and advance) the file
+        // position. The position lives in the `File` handle, not in the
+        // fd table the ring can see, so this form is not modeled; neither
+        // is a range that runs past the end of the offset space. Both
+        // are rejected the way the kernel rejects an invalid offset.
+        if let OpKind::Read { len, offset, .. } | OpKind::Write { len, offset, .. } = entry.op {
+            if offset == u64::MAX || offset.checked_add(len as u64).is_none() {
+                let ring = iou.rings.get_mut(&ring_fd).expect("ring vanished");
+                ring.post_immediate_error(entry.user_data, libc_einval(), now);
+                continue;
+            }
+        }
         match entry.op {
             OpKind::Read {
                 fd,
